@@ -497,6 +497,8 @@ def check(run):
     probes.insert(0, {"cid": "2.1/Identity", "ver": "2.1", "kind": "object", "variant": "witness", "data": WITNESS})
     plan = []            # (probe index, entry, cfg)
     cfgs = {}
+    # the recorded witness of the (repaired) positional call sites goes first
+    plan.append((0, "memory.MemoryStore.add", {"version": "2.1"}))
     for pi, p in enumerate(probes):
         for e in entries_for(p):
             grid = cfgs.setdefault(e, cfg_grid(e, run.tier))
@@ -652,11 +654,17 @@ def check(run):
     ]
 
 
+def short_cls(c):
+    parts = c.split(".")
+    ver = [x for x in parts if x in ("v20", "v21")]
+    return (ver[0] + "." if ver else "") + parts[-1]
+
+
 def short(o):
     if o[0] == "ok":
-        return "accepted as %s" % (o[1] or "<stored>")
+        return "accepted as %s" % (short_cls(o[1]) if o[1] else "<stored>")
     if o[0] == "exc":
-        return "%s%s" % (o[1], "(%s.%s)" % (o[2].rsplit(".", 1)[-1], o[3]) if o[2] else "")
+        return "%s%s" % (o[1], "(%s.%s)" % (short_cls(o[2]), o[3]) if o[2] else "")
     return str(o)
 
 
